@@ -57,9 +57,13 @@ func (r *Report) add(rule, construct, pos, verdict, why string) {
 	r.Obs = append(r.Obs, Ob{Rule: rule, Construct: construct, Pos: pos, Verdict: verdict, Why: why, Config: r.Config})
 }
 
-func (r *Report) OK(rule, construct, pos, why string)        { r.add(rule, construct, pos, "ok", why) }
-func (r *Report) Fail(rule, construct, pos, why string)      { r.add(rule, construct, pos, "violation", why) }
-func (r *Report) Undecided(rule, construct, pos, why string) { r.add(rule, construct, pos, "undecided", why) }
+func (r *Report) OK(rule, construct, pos, why string) { r.add(rule, construct, pos, "ok", why) }
+func (r *Report) Fail(rule, construct, pos, why string) {
+	r.add(rule, construct, pos, "violation", why)
+}
+func (r *Report) Undecided(rule, construct, pos, why string) {
+	r.add(rule, construct, pos, "undecided", why)
+}
 
 // Check adds ok or violation depending on cond.
 func (r *Report) Check(cond bool, rule, construct, pos, whyOK, whyFail string) bool {
@@ -229,7 +233,9 @@ func Finish(property, tier string, seed int, reports []*Report, known []Known, o
 	for k, v := range rules {
 		rl = append(rl, k+": "+v)
 	}
-	sort.Slice(rl, func(i, j int) bool { return ruleLess(strings.SplitN(rl[i], ":", 2)[0], strings.SplitN(rl[j], ":", 2)[0]) })
+	sort.Slice(rl, func(i, j int) bool {
+		return ruleLess(strings.SplitN(rl[i], ":", 2)[0], strings.SplitN(rl[j], ":", 2)[0])
+	})
 	var al []string
 	for k := range assume {
 		al = append(al, k)
